@@ -31,7 +31,6 @@ import (
 	"math/rand"
 	"os"
 	"runtime"
-	"runtime/pprof"
 	"strconv"
 	"sync"
 	"sync/atomic"
@@ -82,10 +81,12 @@ const baseTs = int64(1609459200) * 1e9 // 2021-01-01
 
 var sizeClasses = []int{16, 16, 40, 200, 200, 4000, 65536}
 
-func genSchedule(rng *rand.Rand, idx int) schedule {
-	s := schedule{FlushInterval: int64(2 * time.Second)}
+func genSchedule(rng *rand.Rand, idx int, big, oversize bool) schedule {
+	s := schedule{FlushInterval: int64(10 * time.Second)}
 	multi := false
-	switch idx % 6 {
+	switch idx % 7 {
+	case 6:
+		s.Kind, s.Hold, s.Paced = "paced-lag2", 1, true
 	case 0:
 		s.Kind, s.Hold, s.Paced = "paced-sync", 0, true
 	case 1:
@@ -122,10 +123,13 @@ func genSchedule(rng *rand.Rand, idx int) schedule {
 		}
 		style := rng.Intn(10)
 		n := 1 + rng.Intn(20)
+		if big && p == 2 {
+			n = 8
+		}
 		if style < 3 {
 			n = 1 + rng.Intn(3) // rotation after almost every append
 		}
-		sizeRoll := !multi && style == 9 && !bigDone
+		sizeRoll := big && !multi && p == 2 && !bigDone
 		for a := 0; a < nApp; a++ {
 			var l []appendSpec
 			t := ts + int64(a) // appenders start at (almost) the same timestamp: bumps
@@ -133,7 +137,7 @@ func genSchedule(rng *rand.Rand, idx int) schedule {
 				sz := sizeClasses[rng.Intn(len(sizeClasses))]
 				if sizeRoll {
 					sz = 1 << 20
-					if i == 2 && s.Hold == 0 {
+					if i == 2 && oversize {
 						sz = 5<<20 + 100 // larger than the whole buffer
 					}
 				}
@@ -145,7 +149,7 @@ func genSchedule(rng *rand.Rand, idx int) schedule {
 				if rng.Intn(8) == 0 {
 					t -= int64(rng.Intn(3)) // equal / decreasing timestamps: monotonic bump
 				}
-				if sizeRoll && i >= 6 {
+				if sizeRoll && i >= 5 {
 					break
 				}
 			}
@@ -166,6 +170,9 @@ func genSchedule(rng *rand.Rand, idx int) schedule {
 	}
 	// readers
 	nReaders := 2 + rng.Intn(5)
+	if big {
+		nReaders = 2
+	}
 	for i := 0; i < nReaders; i++ {
 		rs := readerSpec{AfterPhase: -1}
 		switch c := (i + rng.Intn(3)) % 7; c {
@@ -253,6 +260,7 @@ type world struct {
 	diskMu  sync.Mutex
 	disk    []segment
 	flushed int64 // flushFn returned
+	entered int64 // flushFn entered
 	// gate
 	sealedPredicted int64
 	finishing       int32
@@ -265,6 +273,7 @@ type world struct {
 	events     []*evRec
 	evMu       sync.Mutex
 	paceFailed int
+	elapsed    time.Duration
 	// wake-ups: a generation counter bumped by appends (notifyFn), flushes, predicted
 	// seals, phase ends and a 1 ms ticker; waiters sleep on the condition variable
 	wmu  sync.Mutex
@@ -342,6 +351,7 @@ func entrySize(ts int64, size int) int {
 
 func (w *world) flushFn(start, stop time.Time, buf []byte) {
 	entry := tick()
+	atomic.AddInt64(&w.entered, 1)
 	w.diskMu.Lock()
 	j := len(w.disk)
 	w.diskMu.Unlock()
@@ -404,6 +414,27 @@ func (w *world) pace() {
 	w.paceFailed++
 }
 
+// settle (in-step regime only): after an append wait until the flusher is idle and the
+// last flush is visible, giving the flusher one more wake-up to pick up a seal the
+// prediction did not foresee. Only shapes the workload; the lag class is measured.
+func (w *world) settle() {
+	if !(w.sched.Paced && w.sched.Hold == 0) {
+		return
+	}
+	for round := 0; round < 2; round++ {
+		for i := 0; i < 5000; i++ {
+			e, f := atomic.LoadInt64(&w.entered), atomic.LoadInt64(&w.flushed)
+			if e == f && (f == 0 || w.flushComplete(int(f)-1)) {
+				break
+			}
+			w.waitNext()
+		}
+		if round == 0 {
+			w.waitNext()
+		}
+	}
+}
+
 func (w *world) diskSnapshot() []segment {
 	w.diskMu.Lock()
 	defer w.diskMu.Unlock()
@@ -450,10 +481,8 @@ func (w *world) runReader(rr *readerRun, wg *sync.WaitGroup) {
 		if spec.PauseAfter > 0 && len(rr.got) == spec.PauseAfter {
 			<-w.phaseDone[spec.ResumePhase]
 		}
-		if spec.Slow && len(rr.got)%4 == 0 {
-			for i := 0; i < 20; i++ {
-				runtime.Gosched()
-			}
+		if spec.Slow && len(rr.got)%2 == 0 && atomic.LoadInt32(&w.finishing) == 0 {
+			w.waitNext() // falls behind: at most 2 events per wake-up
 		}
 		return nil
 	}
@@ -548,6 +577,7 @@ func runSchedule(r *lib.Run, s schedule, label string) {
 	for range s.Phases {
 		w.phaseDone = append(w.phaseDone, make(chan struct{}))
 	}
+	created := time.Now()
 	w.lb = log_buffer.NewLogBuffer("c22", time.Duration(s.FlushInterval), w.flushFn, func() { w.bump() })
 
 	var wg sync.WaitGroup
@@ -587,6 +617,7 @@ func runSchedule(r *lib.Run, s schedule, label string) {
 				}
 				pos += esz
 				w.appendOne(ev, a.Ts)
+				w.settle()
 			}
 		} else {
 			// several appenders: the first append of the phase seals (gap); inside the phase
@@ -666,6 +697,7 @@ func runSchedule(r *lib.Run, s schedule, label string) {
 		os.Stderr.Write(buf[:runtime.Stack(buf, true)])
 		return
 	}
+	w.elapsed = time.Since(created)
 	w.evaluate(runs, shutdownStamp, predSeg, label)
 }
 
@@ -756,7 +788,9 @@ func (w *world) evaluate(runs []*readerRun, shutdownStamp int64, predSeg map[uin
 			samePrediction = false
 		}
 	}
-	conservative := s.Timer || !samePrediction
+	// without timer-driven seals a buffer is sealed inside the AddToBuffer of the first event
+	// of the next one; timer seals are possible once the run lasted a good part of the flush interval
+	conservative := s.Timer || w.elapsed > time.Duration(s.FlushInterval)/2
 	lastOfSeg := make([]*evRec, len(disk))
 	firstOfSeg := make([]*evRec, len(disk))
 	for _, e := range order {
@@ -947,6 +981,7 @@ func main() {
 	r.Assume("flushed data is read the way Filer.ReadPersistedLogBuffer does (filer.ReadEachLogEntry over the segments in flush order); the filer's own log files are not involved in this tier")
 	r.Assume("quiescence = appenders finished, Shutdown called, last flush visible through ReadFromBuffer, then 3 further idle iterations of each subscriber")
 	r.Assume("race reports are decisive only when both accessing functions are inside weed/util/log_buffer")
+	r.Assume("the measured flush lag (part of every signature) takes a buffer as sealed inside the AddToBuffer of the first event of the next buffer; when the run lasted longer than half the flush interval (timer seals possible) or in the timer regime the earlier, conservative bound is used, which can only push a schedule into a higher lag class")
 	batchNo := -1
 	if len(r.Args) == 2 && r.Args[0] == "batch" { // child invocation: positional, lib.Start owns the flags
 		batchNo, _ = strconv.Atoi(r.Args[1])
@@ -968,20 +1003,16 @@ func main() {
 	}
 
 	if *batch >= 0 {
-		if pf := os.Getenv("VERIF_C22_PROF"); pf != "" {
-			f, _ := os.Create(pf)
-			_ = pprof.StartCPUProfile(f)
-			defer pprof.StopCPUProfile()
-			nSched = 8
-		}
 		rng := r.SubRng("c22-schedules")
 		for i := 0; i < nSched; i++ {
-			s := genSchedule(rng, i)
+			// 1 MiB payloads are very expensive under the race detector: one rolling schedule per
+			// repeat (two in the thorough tier), the larger-than-buffer entry only in repeat 0
+			big := i == 7 || (r.Thorough() && i == 13)
+			s := genSchedule(rng, i, big, big && *batch == 0 && i == 7)
 			if only := os.Getenv("VERIF_C22_ONLY"); only != "" && fmt.Sprint(i) != only {
 				continue
 			}
 			t0 := time.Now()
-			defer func(k string, i int) {}(s.Kind, i)
 			r.Case(map[string]interface{}{"repeat": *batch, "index": i, "schedule": s})
 			runSchedule(r, s, fmt.Sprintf("sched/%d/rep/%d", i, *batch))
 			fmt.Fprintf(os.Stderr, "schedule %d %s took %.2fs\n", i, s.Kind, time.Since(t0).Seconds())
@@ -1003,7 +1034,6 @@ func main() {
 				break
 			}
 		}
-		pprof.StopCPUProfile()
 		r.Finish(0)
 	}
 
@@ -1011,9 +1041,18 @@ func main() {
 	if self == "" {
 		self = os.Args[0]
 	}
+	var cwg sync.WaitGroup
+	par := make(chan struct{}, 3) // at most 3 children at a time
 	for rep := 0; rep < repeats; rep++ {
-		r.RunChild(fmt.Sprintf("rep%d", rep), self, nil, "batch", fmt.Sprint(rep))
+		cwg.Add(1)
+		go func(rep int) {
+			defer cwg.Done()
+			par <- struct{}{}
+			r.RunChild(fmt.Sprintf("rep%d", rep), self, nil, "batch", fmt.Sprint(rep))
+			<-par
+		}(rep)
 	}
+	cwg.Wait()
 	raceVerdict(r, "weed/util/log_buffer.")
 
 	// totals over the children
